@@ -633,9 +633,9 @@ def slow(op):
 
 
 def sequences(ctx):
-    """quick: all sequences of length <= 2 over the whole alphabet, a seeded sample of 250 triples without split-Bregman calls,
-    all sequences of length <= 3 inside every group of operations that share an object (groups with more than 4 operations: a seeded half).
-    thorough: all of length <= 3 over the whole alphabet without split-Bregman calls plus 2250 sampled triples with one such
+    """quick: all sequences of length <= 2 over the whole alphabet, a seeded sample of 120 triples without split-Bregman calls,
+    all sequences of length <= 3 inside every group of operations that share an object (groups with more than 4 operations: a seeded 30 %).
+    thorough: all of length <= 3 over the whole alphabet without split-Bregman calls plus 2120 sampled triples with one such
     (numba-compiling) call, all of
     length <= 4 inside every group (at most two such calls), distance objects on up to three successive pairs."""
     alphabet = [o for g in GROUPS.values() for o in g]
@@ -664,13 +664,13 @@ def sequences(ctx):
             emit(seq)
     else:
         fast = [o for o in alphabet if not slow(o)]
-        for _ in range(250):
+        for _ in range(120):
             emit([ctx.rng.choice(fast) for _ in range(3)])
     for name, g in GROUPS.items():
         for k in range(3, ctx.pick(3, 4) + 1):
             for seq in itertools.product(g, repeat=k):
                 if sum(map(slow, seq)) <= (1 if k == 3 and not ctx.big else 2):
-                    if ctx.big or len(g) <= 4 or ctx.rng.random() < 0.5:  # quick: every triple of the small groups, a seeded half of the large ones
+                    if ctx.big or len(g) <= 4 or ctx.rng.random() < 0.3:  # quick: every triple of the small groups, a seeded half of the large ones
                         emit(seq)
     for seq in ws_sequences(ctx.pick(2, 3)):
         emit(seq)
@@ -899,7 +899,7 @@ def _run(ctx, d, zyg):
     metavals = []
     metatraces = []
     for si2, (seq, flags, res) in enumerate(zip(seqs, impl_eq, results)):
-        if seq_in_model(seq) and any(in_model(o) for o in seq) and (len(seq) <= 2 or si2 % ctx.pick(3, 5) == 0):
+        if seq_in_model(seq) and any(in_model(o) for o in seq) and (len(seq) <= 2 or si2 % ctx.pick(4, 5) == 0):
             lines.append(model_line(seq))
             meta.append((seq, [f for o, f in zip(seq, flags) if in_model(o)], [r for o, r in zip(seq, res) if in_model(o)]))
             metavals.append([v for o, v in zip(seq, values[si2]) if in_model(o)])
@@ -979,8 +979,8 @@ def _run(ctx, d, zyg):
                                  "first_trace_difference": trace_bad})
         ctx.log(f"correspondence stateful-sequences: {ndiff} disagreements, e.g. {json.dumps(first[0])[:300]} impl={first[1]} model={first[2][:200]}")
 
-    ctx.cov["rule"] = ("sequences: quick = all of length <= 2 over the 44-operation alphabet + 250 sampled triples + all of length <= 3 inside each group; thorough = all of "
-                       "length <= 3 over the alphabet without split-Bregman calls + 2250 sampled triples with one such call + all of length <= 4 inside each "
+    ctx.cov["rule"] = ("sequences: quick = all of length <= 2 over the 44-operation alphabet + 120 sampled triples + all of length <= 3 inside each group; thorough = all of "
+                       "length <= 3 over the alphabet without split-Bregman calls + 2120 sampled triples with one such call + all of length <= 4 inside each "
                        "group sharing an object (default H1 solver, default split-Bregman solver, one Jacobi object, MG objects, Anderson objects); "
                        "both tiers: six distance objects (Newton/Bregman x direct-full/direct-pressure/amg-pressure) on 2 (quick) / 3 (thorough) successive pairs; EVERY call of every sequence is compared with "
                        "its fresh-process reference; distinct = sequence")
